@@ -52,7 +52,7 @@ def run(ctx):
                 tname = rng.choice(['secint16', 'secint32', 'secfld101', 'secfld_big']) if m < 101 else 'secint16'
                 seed = rng.randrange(10**6)
                 nops = ctx.n(10, 16)
-                prog_ops = [rng.choice(['add', 'sub', 'neg', 'scal', 'mul', 'mul', 'mul', 'sq', 'rand', 'cmp', 'addc'])
+                prog_ops = [rng.choice(['add', 'sub', 'neg', 'scal', 'mul', 'mul', 'mul', 'sq', 'rand', 'cmp', 'addc', 'recip', 'bits'])
                             for _ in range(nops)]
                 picks = [(rng.randrange(10**6), rng.randrange(10**6), rng.randrange(-5, 6)) for _ in range(nops)]
                 inputs = [rng.choice([0, 1, -1, 2, 3, -7, 11]) for _ in range(m)]
@@ -89,14 +89,17 @@ def run(ctx):
                         else:
                             st = mpc.SecFld(modulus=2**61 - 1)
                         p = st.field.modulus
+                        m_ = len(mpc.parties)
                         rec = []          # per value: (kind, operands..., own share)
                         vals = mpc.input(st(inputs[pid]))
                         for v in vals:
                             rec.append(('input', int((await mpc.gather(v)).value)))
                         vals = list(vals)
                         for k, (a, b, c) in zip(prog_ops, picks):
-                            x, y = vals[a % len(vals)], vals[b % len(vals)]
                             ia, ib = a % len(vals), b % len(vals)
+                            if k == 'cmp' or (k == 'recip' and not tname.startswith('secfld')):
+                                ia, ib = a % m_, b % m_      # comparisons / abs only on the (small, in-range) inputs
+                            x, y = vals[ia], vals[ib]
                             if k == 'add':
                                 z = x + y
                             elif k == 'sub':
@@ -116,6 +119,17 @@ def run(ctx):
                                 z = mpc._random(st)
                             elif k == 'cmp':
                                 z = (x == y) if tname.startswith('secfld') else (x < y)
+                            elif k == 'recip':
+                                # field reciprocal (masked opening of a*r; zero-sharing with PRSS in small fields);
+                                # x*x+1 is opened first so that only nonzero values are inverted; secint: |x| instead
+                                if tname.startswith('secfld'):
+                                    w = x * x + 1
+                                    nz = await mpc.output(w)
+                                    z = 1 / w if int(nz.value) != 0 else w
+                                else:
+                                    z = abs(x)
+                            elif k == 'bits':
+                                z = mpc.random_bits(st, 2)[1]
                             sh = int((await mpc.gather(z)).value)
                             rec.append((k, ia, ib, c, sh))
                             vals.append(z)
@@ -151,8 +165,15 @@ def run(ctx):
                                 v = exp[ia] + c
                             elif k in ('mul', 'sq'):
                                 v = exp[ia] * exp[ib]
+                            elif k == 'recip' and tname.startswith('secfld'):
+                                w = (exp[ia] * exp[ia] + 1) % p
+                                v = pow(w, -1, p) if w else 0
+                            elif k == 'recip':
+                                v = abs(exp[ia] if exp[ia] <= p // 2 else exp[ia] - p)
                             else:
-                                v = res[0]['outs'][j]       # rand / cmp: value as opened
+                                v = res[0]['outs'][j]       # rand / cmp / bits: value as opened
+                                if k in ('cmp', 'bits') and v % p not in (0, 1):
+                                    ctx.violation('bit-valued-result-not-a-bit op=%s m=%d t=%d' % (k, m, t), {**key, 'index': j, 'opened': v})
                             exp.append(v % p)
                         col = [res[i]['rec'][j][-1] for i in range(m)]
                         n_vals += 1
